@@ -16,7 +16,7 @@ fn trap_name(t: DecoderTrap) -> &'static str {
 fn sample_bytes(rng: &mut Rng, enc: &str) -> Vec<u8> {
     if enc == "iso-2022-jp" && rng.chance(1, 2) {
         // 7-bit stateful codec: ASCII-only byte strings with (possibly malformed) escape sequences
-        let pieces: &[&[u8]] = &[b"\x1b$B", b"\x1b(B", b"\x1b(J", b"\x1b$@", b"\x1b", b"\x0e", b"\x0f", b"$3$s", b"$3", b"abc ", b"!!", b"\x1b(I", b"1", b"\x1b$"];
+        let pieces: &[&[u8]] = &[b"\x1b$B", b"\x1b(B", b"\x1b(J", b"\x1b$@", b"\x1b", b"\x0e", b"\x0f", b"$3$s", b"$3", b"abc ", b"!!", b"\x1b(I", b"1", b"\x1b$", b"\x1b$(", b"\x1b$(D", b"\x1b(", b"\x1b$(D\x22\x2f", b"\x1b$A", b"\x1b$(C", b"\x1b.A", b"\x1bN"];
         let mut b = vec![];
         for _ in 0..rng.range(1, 6) {
             let piece: &[u8] = *rng.pick(pieces);
